@@ -712,6 +712,7 @@ int
 ncclose(int cdfid)
 {
     NC *handle;
+    int status = 0;
 
     cdf_routine_name = "ncclose";
 
@@ -737,9 +738,11 @@ ncclose(int cdfid)
     }
 
     if (handle->file_type == HDF_FILE)
-        hdf_close(handle);
+        if (hdf_close(handle) == FAIL)
+            status = -1; /* report a failed final write-back to the caller */
 
-    NC_free_cdf(handle); /* calls fclose */
+    if (NC_free_cdf(handle) == FAIL) /* calls fclose */
+        status = -1;
 
     _cdfs[cdfid] = NULL; /* reset pointer */
 
@@ -753,7 +756,7 @@ ncclose(int cdfid)
             fprintf(stderr, "unable to reset _cdfs list\n");
             return -1;
         }
-    return 0;
+    return status;
 }
 
 int
